@@ -30,7 +30,7 @@ macro "l_tac" : tactic => `(tactic| (
   (repeat' split at st)
   all_goals (first | (simp at st; done) | skip)
   all_goals (simp only [Option.some.injEq] at st; subst st)
-  all_goals (constructor <;> first | assumption | (simp only [upd, lockS, unlockS, newHelper, relocate, cont_tgt] at * <;>
+  all_goals (constructor <;> first | assumption | (simp only [upd, lockS, unlockS, newHelper, relocate, nestOn, csOn, nestOff, cont_tgt] at * <;>
     grind [upd, TOk, FOk, TPc.freeing, TPc.tgt, K.fr, GK.fr, mem_erase_nd, cont_tgt]))))
 
 theorem invl_rlock (c : Cfg) {s s' : State} (hA : InvA c s) (hD : InvD c s) (h : InvL c s) (t : _)
